@@ -11,6 +11,9 @@ LEVEL = "other"
 BACKEND = "harper_ls::backend::{impl}::"
 
 
+from . import c05
+
+
 def run(ck, tier):
     ck.rule("R-C07-pipeline", "execute_command, arms HarperAddToUserDict / HarperAddToFileDict: load -> append_word(first argument) -> save of the same dictionary value -> document refresh -> publish_diagnostics(file_url), each awaited, in this order on every path after the word is appended; load/save of the file dictionary use get_file_dict_path of the same url")
     ck.rule("R-C07-atomic", "save_dict never truncates the destination in place: it either does not open it for truncation, or writes another path and renames it over the destination after flushing")
@@ -25,6 +28,11 @@ def run(ck, tier):
     _format(ck, p, byk)
     _adopt(ck, p, byk)
     _reload(ck, p)
+    from . import c06
+    ck.rule("R-C07-accept", "an added word is accepted as written: the exact-spelling test compares like with like (rule instance of R-C06-exact) and the entry whose dialect the spell checker tests is not an earlier part's (rule instance of R-C06-union dialect)")
+    sub = c05._Sub(ck, "R-C07-accept", "")
+    c06.like_with_like(sub, p, byk, "R-C07-accept")
+    c06.dialect_first_wins(sub, p, byk, "R-C07-accept")
 
 
 def _find(f, arm, suffix):
